@@ -747,6 +747,10 @@ class SocketClient:
                 z = tasks.get(timeout=0.1)
             except queue.Empty:
                 if t.done():
+                    if not tasks.empty():
+                        # The feeder has put its last items (and the end marker) after
+                        # the `get` above timed out.
+                        continue
                     if t.exception():
                         raise t.exception()
                     if not self._to_shutdown.is_set():
